@@ -28,6 +28,7 @@
 
 static void   COCSdoReset                  (CO_CSDO *csdo, uint8_t num, struct CO_NODE_T *node);
 static void   COCSdoEnable                 (CO_CSDO *csdo, uint8_t num);
+static uint32_t COCSdoGetTicks             (CO_CSDO *csdo, uint32_t ms);
 static CO_ERR COCSdoUploadExpedited        (CO_CSDO *csdo);
 static CO_ERR COCSdoDownloadExpedited      (CO_CSDO *csdo);
 static CO_ERR COCSdoInitUploadSegmented    (CO_CSDO *csdo);
@@ -61,6 +62,29 @@ static void COCSdoAbort(CO_CSDO *csdo, uint32_t err)
 
         (void)COIfCanSend(&csdo->Node->If, &frm);
     }
+}
+
+static uint32_t COCSdoGetTicks(CO_CSDO *csdo, uint32_t ms)
+{
+    CO_TMR   *tmr = &(csdo->Node->Tmr);
+    uint32_t  sec = ms / 1000u;
+    uint32_t  ticks;
+    uint32_t  part;
+
+    /* the timeout is a 32bit value in ms: convert seconds and the
+     * remaining milliseconds with the 16bit time conversion
+     */
+    if (sec > 0xFFFFu) {
+        sec = 0xFFFFu;
+    }
+    ticks = COTmrGetTicks(tmr, (uint16_t)sec, 1u);
+    part  = COTmrGetTicks(tmr, (uint16_t)(ms % 1000u), CO_TMR_UNIT_1MS);
+    if (ticks > (0xFFFFFFFFu - part)) {
+        ticks = 0xFFFFFFFFu;
+    } else {
+        ticks += part;
+    }
+    return (ticks);
 }
 
 static void COCSdoReset(CO_CSDO *csdo, uint8_t num, struct CO_NODE_T *node)
@@ -256,7 +280,7 @@ static CO_ERR COCSdoInitUploadSegmented(CO_CSDO *csdo)
 
         /* refresh timer */
         (void)COTmrDelete(&(csdo->Node->Tmr), csdo->Tfer.Tmr);
-        ticks = COTmrGetTicks(&(csdo->Node->Tmr), csdo->Tfer.Tmt, CO_TMR_UNIT_1MS);
+        ticks = COCSdoGetTicks(csdo, csdo->Tfer.Tmt);
         csdo->Tfer.Tmr = COTmrCreate(&(csdo->Node->Tmr), ticks, 0, &COCSdoTimeout, csdo);
 
         (void)COIfCanSend(&csdo->Node->If, &frm);
@@ -302,7 +326,7 @@ static CO_ERR COCSdoUploadSegmented(CO_CSDO *csdo)
 
             /* refresh timer */
             (void)COTmrDelete(&(csdo->Node->Tmr), csdo->Tfer.Tmr);
-            ticks = COTmrGetTicks(&(csdo->Node->Tmr), csdo->Tfer.Tmt, CO_TMR_UNIT_1MS);
+            ticks = COCSdoGetTicks(csdo, csdo->Tfer.Tmt);
             csdo->Tfer.Tmr = COTmrCreate(&(csdo->Node->Tmr), ticks, 0, &COCSdoTimeout, csdo);
 
             (void)COIfCanSend(&csdo->Node->If, &frm);
@@ -357,7 +381,7 @@ static CO_ERR COCSdoInitDownloadSegmented(CO_CSDO *csdo)
 
         /* refresh timer */
         (void)COTmrDelete(&(csdo->Node->Tmr), csdo->Tfer.Tmr);
-        ticks = COTmrGetTicks(&(csdo->Node->Tmr), csdo->Tfer.Tmt, CO_TMR_UNIT_1MS);
+        ticks = COCSdoGetTicks(csdo, csdo->Tfer.Tmt);
         csdo->Tfer.Tmr = COTmrCreate(&(csdo->Node->Tmr), ticks, 0, &COCSdoTimeout, csdo);
 
         (void)COIfCanSend(&csdo->Node->If, &frm);
@@ -410,7 +434,7 @@ static CO_ERR COCSdoDownloadSegmented(CO_CSDO *csdo)
 
          /* refresh timer */
         (void)COTmrDelete(&(csdo->Node->Tmr), csdo->Tfer.Tmr);
-        ticks = COTmrGetTicks(&(csdo->Node->Tmr), csdo->Tfer.Tmt, CO_TMR_UNIT_1MS);
+        ticks = COCSdoGetTicks(csdo, csdo->Tfer.Tmt);
         csdo->Tfer.Tmr = COTmrCreate(&(csdo->Node->Tmr), ticks, 0, &COCSdoTimeout, csdo);
 
         (void)COIfCanSend(&csdo->Node->If, &frm);
@@ -631,7 +655,7 @@ CO_ERR COCSdoRequestUpload(CO_CSDO *csdo,
     CO_SET_BYTE(&frm, csdo->Tfer.Sub, 3u);
     CO_SET_LONG(&frm, 0,              4u);
 
-    ticks = COTmrGetTicks(&(csdo->Node->Tmr), timeout, CO_TMR_UNIT_1MS);
+    ticks = COCSdoGetTicks(csdo, timeout);
     csdo->Tfer.Tmr = COTmrCreate(&(csdo->Node->Tmr), ticks, 0, &COCSdoTimeout, csdo);
 
     (void)COIfCanSend(&csdo->Node->If, &frm);
@@ -715,7 +739,7 @@ CO_ERR COCSdoRequestDownload(CO_CSDO *csdo,
     CO_SET_WORD(&frm, csdo->Tfer.Idx, 1u);
     CO_SET_BYTE(&frm, csdo->Tfer.Sub, 3u);
 
-    ticks = COTmrGetTicks(&(csdo->Node->Tmr), timeout, CO_TMR_UNIT_1MS);
+    ticks = COCSdoGetTicks(csdo, timeout);
     csdo->Tfer.Tmr = COTmrCreate(&(csdo->Node->Tmr), ticks, 0, &COCSdoTimeout, csdo);
 
     (void)COIfCanSend(&csdo->Node->If, &frm);
